@@ -54,6 +54,23 @@ var hostilePayloads = []string{"a\r\nb", "\r\n", "+OK", "-ERR x", "$-1", ":1", "
 // a request argument): nested, repeated, lone and reversed terminators, each followed by something reply-shaped.
 var lineBreakers = []string{"a\r\n+b", "a\r\r\n\n+b", "a\n+b", "a\r+b", "a\n\r+b", "a\r\n\r\n:1", "\r\n\r\n", "a\r\r\r\n\n\n$-1", "a\r\n\n+b", "\r\r\n\n", "a\r \n+b"}
 
+// aliasingSeq: several values arrive in one command (one request buffer, one log entry), then one of them is grown or
+// overwritten in place, then the others are read. Values must not share memory with their neighbours.
+func (g *G) aliasingSeq() []Cmd {
+	k := func(i int) string { return g.Keys[(g.R.Intn(len(g.Keys))+i)%len(g.Keys)] + ":al" + strconv.Itoa(i) }
+	k1, k2, k3 := k(1), k(2), k(3)
+	long := strings.Repeat("+grown", 1+g.R.Intn(4))
+	switch g.R.Intn(4) {
+	case 0:
+		return []Cmd{c("MSET", k1, "hello", k2, "world", k3, "en"), c("APPEND", k1, long), c("MGET", k1, k2, k3)}
+	case 1:
+		return []Cmd{c("MSET", k1, "aaaa", k2, "bbbb", k3, "cccc"), c("SETRANGE", k2, "2", long), c("APPEND", k1, "xy"), c("MGET", k1, k2, k3)}
+	case 2:
+		return []Cmd{c("MSET", k1, "1", k2, "22", k3, "333"), c("APPEND", k2, long), c("INCR", k1), c("GET", k3), c("GET", k2), c("GET", k1)}
+	}
+	return []Cmd{c("SET", k1, "v"), c("MSET", k2, "p", k1, "q", k3, "r"), c("APPEND", k2, long), c("APPEND", k1, long), c("MGET", k3, k2, k1)}
+}
+
 // errorEcho returns a command that is refused with a message likely to quote one of its arguments.
 func (g *G) errorEcho() Cmd {
 	x := lineBreakers[g.R.Intn(len(lineBreakers))]
@@ -859,6 +876,10 @@ func Program(r *rand.Rand, family string, maxSteps int) []Cmd {
 		fam := family
 		if family == FMixed && r.Intn(16) == 0 {
 			prog = append(prog, g.errorEcho())
+			continue
+		}
+		if (family == FCluster || family == FString || family == FMixed) && r.Intn(20) == 0 {
+			prog = append(prog, g.aliasingSeq()...)
 			continue
 		}
 		if family == FMixed || family == FCluster {
